@@ -140,8 +140,28 @@ func rGenTemplate(rng *rand.Rand) []rRoute {
 
 var rMethodPool = rMethods
 
+// tables with escaped colons (literal ':' in the path) next to parameters and wildcards; none of them puts an escaped colon
+// and a parameter at the SAME tree position (that collision is the known finding D3)
+var rEscTables = [][]string{
+	{`/v1/things\::verb`},
+	{`/books\::id`, `/books`},
+	{`/v1/docs\:*`, `/v1/docs`},
+	{`/v1/items/:id/state`, `/v1/items/:id/state\:lock`, `/v1/items/:id/state\:unlock`},
+	{`/v1/:kind/:name/actions\:restart`, `/v1/:kind/:name/actions\:reload`, `/v1/:kind/:name/actions`},
+	{`/k\:v/:id`, `/k\:v`, `/k\:w/:id`},
+	{`/mixed/:id/second\:something`, `/mixed/:id/second`},
+}
+
 func rGenTable(rng *rand.Rand, max int) []rRoute {
 	rMethods := rMethodPool
+	if max >= 5 && rng.Intn(12) == 0 {
+		var rs []rRoute
+		for _, p := range rEscTables[rng.Intn(len(rEscTables))] {
+			rs = append(rs, rRoute{[]string{"GET", "POST"}[rng.Intn(2)], p})
+		}
+		rng.Shuffle(len(rs), func(i, j int) { rs[i], rs[j] = rs[j], rs[i] })
+		return rs
+	}
 	if max >= 5 && rng.Intn(3) == 0 {
 		return rGenTemplate(rng)
 	}
@@ -187,6 +207,14 @@ func rBuild(rs []rRoute, ids []int) *rServer {
 		id := ids[k]
 		h := func(c echo.Context) error {
 			*s.out = rOutcome{status: 200, id: id, names: append([]string(nil), c.ParamNames()...), vals: append([]string(nil), c.ParamValues()...), path: c.Path()}
+			if id%3 == 0 {
+				// application code renames the parameters of ITS request afterwards: the route table must not notice
+				renamed := make([]string, len(c.ParamNames()))
+				for i := range renamed {
+					renamed[i] = fmt.Sprintf("renamed%d", i)
+				}
+				c.SetParamNames(renamed...)
+			}
 			return c.NoContent(http.StatusOK)
 		}
 		if hostGroup != nil {
@@ -399,6 +427,9 @@ func rGenPaths(rng *rand.Rand, rs []rRoute, k int) []string {
 			}
 		}
 		path := sb.String()
+		if strings.Contains(p, `\:`) && rng.Intn(4) == 0 {
+			path = strings.ReplaceAll(p, `\:`, ":") // the pattern's own text as a path (parameter markers and all)
+		}
 		switch rng.Intn(9) {
 		case 0:
 			path += "/"
@@ -439,6 +470,29 @@ func rShowTable(rs []rRoute) string {
 	return strings.Join(parts, "; ")
 }
 
+// rPatternNames: the parameter names a pattern declares, in order (":name" up to the next '/', "*" for the wildcard;
+// an escaped colon is literal text)
+func rPatternNames(p string) []string {
+	names := []string{}
+	for i := 0; i < len(p); i++ {
+		switch {
+		case p[i] == '\\' && i+1 < len(p) && p[i+1] == ':':
+			i++
+		case p[i] == ':':
+			j := i + 1
+			for j < len(p) && p[j] != '/' {
+				j++
+			}
+			names = append(names, p[i+1:j])
+			i = j - 1
+		case p[i] == '*':
+			names = append(names, "*")
+			return names
+		}
+	}
+	return names
+}
+
 // shared per-request predicate evaluation; returns ok, why
 func rCheck(rs []rRoute, method, path string, o rOutcome) (bool, string) {
 	rp := rRouterPath(path)
@@ -452,6 +506,9 @@ func rCheck(rs []rRoute, method, path string, o rOutcome) (bool, string) {
 		r := rs[o.id]
 		if r.method != method && r.method != rNF {
 			return false, fmt.Sprintf("request %s served by the %s route %q", method, r.method, r.pattern)
+		}
+		if want := rPatternNames(r.pattern); fmt.Sprint(o.names) != fmt.Sprint(want) {
+			return false, fmt.Sprintf("route %q: the handler sees parameter names %q, the pattern declares %q", r.pattern, o.names, want)
 		}
 		got, cnt, slashOK := rSubst(r.pattern, o.vals)
 		if !cnt || len(o.vals) != len(o.names) {
